@@ -177,7 +177,8 @@ func (l layout) desc(c Call) string {
 	switch c.Name {
 	case "open", "openat", "openat2", "creat":
 		switch {
-		case hasFlag(c.Flags, "O_CREAT") && hasFlag(c.Flags, "O_APPEND"):
+		case hasFlag(c.Flags, "O_CREAT") && hasFlag(c.Flags, "O_APPEND") && l.fileKind(c.Path) == "marker":
+			// the steps' own `>> marker`; files the product creates are "create" whatever other flags it passes
 			kind = "create-append"
 		case hasFlag(c.Flags, "O_CREAT"):
 			kind = "create"
